@@ -155,6 +155,42 @@ def subtraction_rule(ctx, R):
                   'subtrahend-from-the-input-set', 'subtrahend ranges over the boxes parameter',
                   'the subtracted polygons do not come from the boxes handed to exclusively_owned_areas (%r over %r)' % (
                       other, ochain), c.ln)
+        # "another box" is decided by POSITION in the set, never by comparing box values: two detections with (nearly)
+        # the same box are two boxes, and each covers the other
+        n += 1
+        byvalue = []
+        from lib import paths_to
+        for cv in (paths_to(b, c.bb) or [path_conditions(b, c.bb)]):
+            for k in cv:
+                if k.kind == 'bool' and k.expr.kind == 'call' and k.expr.name.rsplit('::', 1)[-1] in ('eq', 'ne') and \
+                        len(k.expr.args) == 2:
+                    ks = [elem_key(F, fb, b, a_)[0] for a_ in k.expr.args]
+                    if None not in ks and ks[0] != ks[1] and not any(
+                            str(f_) in ('0', 'index') for a_ in k.expr.args for p_ in a_.places() for f_ in p_.fields[-1:]
+                            if p_.fields and str(p_.fields[-1]) == '0' and False):
+                        tys = [str(b.locals[a_['pl']['l']]) for a_ in k.expr.extra.args if a_.get('pl')] \
+                            if hasattr(k.expr.extra, 'args') else []
+                        if any('Universal2DBox' in t_ for t_ in tys):
+                            byvalue.append(k)
+        # the same test hidden in a filter of the iteration the subtrahend comes from
+        if ochain is not None:
+            for y in ochain.walk():
+                if y.kind == 'call' and y.name.rsplit('::', 1)[-1] in ('filter', 'filter_map', 'skip_while', 'take_while') \
+                        and hasattr(y.extra, 'args'):
+                    owner_b = b
+                    from lib import adaptor_of_closure
+                    for hb_ in [fb] + all_closures(F, fb):
+                        if y.extra in hb_.calls().values():
+                            owner_b = hb_
+                    for fcb in closure_args_of_call(F, owner_b, y.extra):
+                        ctx.read(fcb)
+                        for qc in fcb.find_calls('std::cmp::PartialEq::eq', 'std::cmp::PartialEq::ne'):
+                            tys = [str(fcb.locals[a_['pl']['l']]) for a_ in qc.args if a_.get('pl')]
+                            if any('Universal2DBox' in t_ for t_ in tys):
+                                byvalue.append(qc)
+        ctx.check(not byvalue, R, b, 'other-box-by-position-not-by-value', '',
+                  'whether a box is subtracted depends on a value comparison of the two boxes (%s): equal boxes are '
+                  'distinct members of the set and cover each other' % [str(k)[:80] for k in byvalue], c.ln)
         # the accumulated region is what the per-box stage yields
         ret = ExprBuilder(b).place(0, ())
         n += 1
